@@ -51,6 +51,9 @@ EXPECT_PROBES = ["announced", "lost_announced", "lost_half_open",
                  "unrelated_bad_type_error_mid_handshake"]
 
 DPIDS = [0x11, 0x2200000022]
+# the two datapath ids of a run are drawn from here (cfg["dpids"]); 0 and
+# 2**64-1 are legal ids
+DPID_POOL = [0x11, 0x2200000022, 0, (1 << 64) - 1, 1, 1 << 48, 0xffffffffffff]
 
 
 def _port(no):
@@ -63,7 +66,8 @@ def gen_plan(seed, tier):
   npeers = r.randint(1, 3)
   cfg = {"segment": r.chance(0.5), "delay": r.chance(0.3),
          "recv_mode": r.pick(["all", "all", "choose", "dribble"]),
-         "shuffle_ready": r.chance(0.3)}
+         "shuffle_ready": r.chance(0.3),
+         "dpids": r.sample(DPID_POOL, 2) if r.chance(0.5) else list(DPIDS)}
   # per-peer script, then a random interleaving
   scripts = []
   for p in range(npeers):
@@ -146,6 +150,7 @@ def run_plan(plan):
   cfg = plan["cfg"]
   sim = S.Sim(mix(plan["seed"], "run"), calm=plan.get("calm", False))
   S.install(sim)
+  sim.dpids = list(cfg.get("dpids", DPIDS))
   sim.net_segment = cfg.get("segment", False)
   sim.net_delay = cfg.get("delay", False)
   sim.recv_mode = cfg.get("recv_mode", "all")
@@ -212,7 +217,7 @@ def _drive(sim, plan, known, hit):
       if p in peers:
         continue
       peer = world.new_peer("p%d" % p)
-      peers[p] = (peer, PeerModel(p, DPIDS[st["dpid"]]))
+      peers[p] = (peer, PeerModel(p, sim.dpids[st["dpid"]]))
       sim.probes["connect"] += 1
       settle_all()
       _check(sim, world, peers, known, hit)
@@ -426,7 +431,7 @@ def _check(sim, world, peers, known, hit, final=False):
   # sendToDPID reaches exactly that socket
   for peer, _ in peers.values():
     peer.pump()
-  for di, d in enumerate(DPIDS):
+  for di, d in enumerate(sim.dpids):
     marks = {}
     for p, (peer, m) in peers.items():
       marks[p] = len(peer.rx_raw)
